@@ -2,7 +2,7 @@
 from hypothesis import strategies as st
 
 from harness import build, gen, simnet, wire, httpref, deflateref
-from harness.runner import Prop, Enumeration, held, failed, after_every_prelude
+from harness.runner import Prop, Enumeration, held, failed, after_every_prelude, with_noise, with_companion
 from props.c01 import effective_seg, compare_events
 
 
@@ -115,6 +115,8 @@ class C14(Prop):
             "prelude": gen.prelude(),
             # a second live connection in the same process (interleaved with this one, or blocked in a send)
             "companion": gen.companion(),
+            # calls with unsendable arguments that the application tries (and whose error it catches) on the way
+            "noise_calls": gen.noise_calls(),
             # permessage-deflate negotiated (any parameters); the data messages selected by cmask are sent
             # compressed by the peer, so Pings also arrive between the fragments of compressed messages
             # (Pongs must still go out uncompressed, with the Ping's payload)
@@ -150,7 +152,7 @@ class C14(Prop):
              "close_at": None, "fault": None, "seg": "whole", "deflate": False, "cmask": 0},
         ]
         return [Enumeration("pong_before_reaction_all_single_preemptions", cases, exhaustive=True),
-                after_every_prelude(battery)]
+                after_every_prelude(battery), with_noise(battery), with_companion(battery)]
 
     def scenario(self, case, fault_ordinal=None):
         msgs, deflater = case["msgs"], None
@@ -217,7 +219,7 @@ class C14(Prop):
         payloads = [tr.events[i]["data"] for i in ping_idx]
         labels = {"auto_pong:%s" % case["auto_pong"], "pings:%d" % min(len(ping_idx), 6),
                   "deflate" if case.get("deflate") else "plain"}
-        close_rec = [r for r in tr.actions if r["action"][0] == "close"]
+        close_rec = [r for r in tr.actions if r["action"][0] == "close" and r["result"] == "ok"]
         close_ev = close_rec[0]["ev"] if close_rec else None
         ping_after_close = close_ev is not None and any(i > close_ev for i in ping_idx)
         in_fragment = "interleaved_control" in built.flags
